@@ -95,6 +95,10 @@ class Case final : public sim::CaseBase {
     }
     consumer = static_cast<int>(g.Draw(2));
     keep_shared_copies = g.Flip();
+    // other waiters on the shared inputs: a SubscribeInline callback attached before the combinator registers, and/or a second
+    // combinator (Join<None>) over copies of the same shared inputs
+    extra_waiters = g.Flip();
+    aux_join = g.Draw(3) == 2;
     pool_workers = 1 + g.Draw(2);
     DecideGate();
   }
@@ -142,7 +146,7 @@ class Case final : public sim::CaseBase {
       j.End();
     }
     j.EndArr();
-    j.KV("gate", gate_applies).KV("consumer", consumer == 0 ? "Get" : "Wait+Touch").KV("shared_copies_kept_by_caller", keep_shared_copies).KV("pool_workers", pool_workers);
+    j.KV("gate", gate_applies).KV("consumer", consumer == 0 ? "Get" : "Wait+Touch").KV("shared_copies_kept_by_caller", keep_shared_copies).KV("subscribers_attached_to_shared_inputs_first", extra_waiters).KV("second_combinator_over_the_same_shared_inputs", aux_join).KV("pool_workers", pool_workers);
   }
 
   // ------------------------------------------------------------------------------------------------- inputs at run time
@@ -433,7 +437,39 @@ class Case final : public sim::CaseBase {
     }
   }
 
+  template <typename V>
+  void AttachOthers(Inputs<V>& x) {
+    std::vector<yaclib::SharedFuture<V, E>> copies;
+    for (std::size_t i = 0; i < ins.size() && i < x.sf.size(); ++i) {
+      if (!ins[i].shared || !x.sf[i].Valid()) {
+        continue;
+      }
+      if (extra_waiters) {
+        SIM_PROBE("subscriber_attached_to_a_shared_input_first");
+        x.sf[i].SubscribeInline([this, i](const yaclib::Result<V, E>& r) {
+          ++sub_calls[i];
+          sub_got[i] = sim::Observe(r, "subscriber attached to a shared input before the combinator");
+        });
+      }
+      if (aux_join) {
+        copies.push_back(x.sf[i]);
+      }
+    }
+    if (aux_join && !copies.empty()) {
+      SIM_PROBE("second_combinator_over_the_same_shared_inputs");
+      aux_inputs = copies.size();
+      aux_out = yaclib::Join<FailPolicy::None>(copies.begin(), copies.size());
+    }
+  }
+
   void CallCombinator() {
+    sub_calls.assign(ins.size(), 0);
+    sub_got.assign(ins.size(), Outcome{});
+    if (comb == kJoin) {
+      AttachOthers<void>(iv);
+    } else {
+      AttachOthers<T>(it);
+    }
     when_invoke = sim::Seq();
     switch (comb) {
       case kWhenAll:
@@ -700,6 +736,27 @@ class Case final : public sim::CaseBase {
         }
       }
     }
+    for (std::size_t i = 0; i < ins.size(); ++i) {
+      if (extra_waiters && ins[i].shared && i < sub_calls.size() && !sim::Failed()) {
+        const bool attached = comb == kJoin ? i < iv.sf.size() : i < it.sf.size();
+        if (!attached) {
+          continue;
+        }
+        if (sub_calls[i] != 1) {
+          sim::Fail(sub_calls[i] == 0 ? "OTHER_WAITER_LOST" : "OTHER_WAITER_DUPLICATED", "the subscriber attached to shared input %zu before the combinator ran %d times", i,
+                    sub_calls[i]);
+        } else if (sub_got[i].kind != Expected(ins[i]).kind || (comb != kJoin && sub_got[i] != Expected(ins[i]))) {
+          sim::Fail("OTHER_WAITER_WRONG_RESULT", "the subscriber attached to shared input %zu saw %s, its producer set %s", i, sub_got[i].Str().c_str(),
+                    Expected(ins[i]).Str().c_str());
+        }
+      }
+    }
+    if (aux_join && aux_out.Valid() && !sim::Failed()) {
+      if (!aux_out.Ready()) {
+        sim::Fail("OTHER_WAITER_LOST", "a second combinator over the same %zu shared inputs never completed although all of them did", aux_inputs);
+      }
+      aux_out = {};
+    }
     it = Inputs<T>{};
     iv = Inputs<void>{};
     ii = Inputs<int>{};
@@ -860,7 +917,11 @@ class Case final : public sim::CaseBase {
 
   std::string profile;
   int comb = 0, form = 0, kind = 0, policy = 1, consumer = 0;
-  bool use_gate = false, gate_applies = false, keep_shared_copies = false;
+  bool use_gate = false, gate_applies = false, keep_shared_copies = false, extra_waiters = false, aux_join = false;
+  std::vector<int> sub_calls;
+  std::vector<Outcome> sub_got;
+  yaclib::Future<void, E> aux_out;
+  std::size_t aux_inputs = 0;
   std::uint32_t pool_workers = 1;
   std::vector<In> ins;
   std::uint64_t when_invoke = 0, when_return = 0;
@@ -871,5 +932,5 @@ class Case final : public sim::CaseBase {
 }  // namespace
 
 SIM_HARNESS("C09", "when", Case,
-            "WRONG_RESULT EARLY NOT_FIRST_FAILURE NOT_FIRST NOT_FIRST_VALUE NOT_LAST_FAILURE NOT_COMPLETED_WHEN_DECIDED OUTPUT_CHANGED EMPTY_INPUT_VALID INPUT_DAMAGED LOST "
+            "WRONG_RESULT EARLY NOT_FIRST_FAILURE NOT_FIRST NOT_FIRST_VALUE NOT_LAST_FAILURE NOT_COMPLETED_WHEN_DECIDED OUTPUT_CHANGED EMPTY_INPUT_VALID INPUT_DAMAGED OTHER_WAITER_LOST OTHER_WAITER_DUPLICATED OTHER_WAITER_WRONG_RESULT LOST "
             "LEAK LEAK_OBJECT DOUBLE_DESTROY USE_AFTER_DESTROY MOVED_FROM_READ TORN DEADLOCK CRASH:*")
